@@ -340,8 +340,11 @@ OnNewTasks(C, ts, info) ==
       C2 == FoldSeqLeft(Step, [C EXCEPT !.retr = {}], ts)
   IN [ProcessRetracted(C2) EXCEPT !.ns = TRUE]
 
-\* on_remove_worker (single-node workers)
-OnRemoveWorker(C, J, w, fail) ==
+\* on_remove_worker (single-node workers); ord = the order in which the tasks that ran on w are visited by the crash
+\* accounting (the code iterates a hash set: when a failure limit aborts the rest of the job, the order decides which
+\* task ends failed and which aborted)
+RunningOn(C, w) == {t \in C.srv[w].assigned : t \in DOMAIN C.task /\ C.task[t].st = "X"}
+OnRemoveWorker(C, J, w, fail, ord) ==
   LET sw == C.srv[w]
       C0 == [C EXCEPT !.srv = Without(@, w), !.out = Without(@, w), !.retr = {}]
       \* prefilled tasks of the lost worker go back first
@@ -377,7 +380,7 @@ OnRemoveWorker(C, J, w, fail) ==
                cj2 == <<[cj[1] EXCEPT !.task[t].crash = c2], cj[2]>>
            IN IF tinfo[t].climit > 0 /\ c2 >= tinfo[t].climit THEN TaskFailed(cj2, 0, t, "crash_limit") ELSE cj2
         ELSE cj
-      r == FoldSeqLeft(StepF, <<C4, J1>>, SortedIds(running))
+      r == FoldSeqLeft(StepF, <<C4, J1>>, ord)
   IN <<[r[1] EXCEPT !.ns = TRUE], r[2]>>
 
 -----------------------------------------------------------------------------
@@ -533,18 +536,18 @@ ApplyMapping(C, order, m) == \* order: Seq of taken tasks in processing order
 
 \* process_proactive_filling with the workers visited in order wo
 TopPriority(C) == LET S == UNION {PriosOf(C.queue[rq].ready) : rq \in DOMAIN C.queue} IN IF S = {} THEN 0 ELSE Max(S)
-ProactiveFill(C, wo) ==
+ProactiveFill(C, wo, reserve, pfmax) ==
   LET top == TopPriority(C)
       StepQ(CC, rq) ==
         LET q == CC.queue[rq]
             qtop == IF q.ready = {} THEN -1 ELSE Max(PriosOf(q.ready))
             firstEntry == {t \in q.ready : PrioOf(t) = qtop}
             sizeNoPrefill == IF q.ready = {} \/ (q.hasPrefill /\ q.pprio # qtop) THEN 0 ELSE Cardinality(firstEntry)
-            size == IF sizeNoPrefill > PfReserve THEN sizeNoPrefill - PfReserve ELSE 0
+            size == IF sizeNoPrefill > reserve THEN sizeNoPrefill - reserve ELSE 0
             ws == SelectSeq(wo, LAMBDA w : /\ CC.srv[w].kind = "sn"
                                            /\ \E i \in DOMAIN CC.asg : CC.asg[i].w = w /\ CC.task[CC.asg[i].t].rq = rq
                                            /\ ~\E t \in CC.srv[w].prefilled : CC.task[t].rq = rq)
-            psize == IF ws = <<>> THEN 0 ELSE Min({size \div Len(ws), PfMax})
+            psize == IF ws = <<>> THEN 0 ELSE Min({size \div Len(ws), pfmax})
             StepW(CW, w) ==
               LET qq == CW.queue[rq]
                   entry == SortedIds({t \in qq.ready : PrioOf(t) = qtop})
@@ -594,7 +597,7 @@ Schedule ==
             /\ (Eager => MaximalChoice(ch, m))
             /\ \E wo \in SetToSeqs(DOMAIN srv) :
                  LET C1 == ApplyMapping([CoreRec EXCEPT !.queue = q2], takenSeq, m)
-                     C2 == SendMapping(ProactiveFill(C1, wo))
+                     C2 == SendMapping(ProactiveFill(C1, wo, PfReserve, PfMax))
                      C3 == [C2 EXCEPT !.ns = FALSE]
                  IN /\ Commit(C3, JobRec)
                     /\ wk' = [w \in DOMAIN wk |-> [wk[w] EXCEPT !.s2w = @ \o C3.out[w]]]
@@ -719,7 +722,8 @@ ArmLaunchFail(t) ==
 (* Worker loss (connection closed; fail = the loss counts as a crash of the tasks running there) *)
 LoseWorker(w, fail) ==
   /\ panic = "" /\ w \in DOMAIN srv /\ budget.losses > 0
-  /\ LET r == OnRemoveWorker(CoreRec, JobRec, w, fail)
+  /\ \E ord \in SetToSeqs(RunningOn(CoreRec, w)) :
+     LET r == OnRemoveWorker(CoreRec, JobRec, w, fail, ord)
          C == r[1]
      IN /\ Commit(C, r[2])
         /\ wk' = [x \in DOMAIN wk \ {w} |-> [wk[x] EXCEPT !.s2w = @ \o C.out[x]]]
